@@ -301,8 +301,33 @@ pub fn c01(tier: Tier) -> i32 {
         }));
     }
 
+    // Stream 4: the valid rows of the repository's match_test.rs (pattern + input), judged by the
+    // harness's oracle (not by the expectations written in the file).
+    {
+        let (rows, _) = crate::corpus::match_test_rows();
+        let rows: Vec<_> = rows.into_iter().filter(|r| r.kind == crate::corpus::RowKind::Valid).collect();
+        let n = rows.len() as u64;
+        res.merge(run_cases(&ctx, 4, n, |_rng, i, st| {
+            let row = &rows[i as usize];
+            let Ok(re) = parse_to_ir(&row.pattern) else {
+                st.count("repository_rows_not_convertible");
+                return CaseOutcome::Skipped;
+            };
+            if row.input.chars().count() > MAX_DENOT_CHARS {
+                return CaseOutcome::Skipped;
+            }
+            let cfg = ScannerCfg::single(vec![RefPattern { re, tt: 0, la: None }]);
+            st.count("repository_rows_checked");
+            st.nontrivial(hash_of(&(&row.pattern, &row.input)));
+            match run_tok_case("tok", TokOracle::FullRule, &cfg, &row.input, 0, BuildPath::Uncached, st) {
+                Ok(()) => CaseOutcome::Ok,
+                Err(v) => CaseOutcome::Violated(v),
+            }
+        }));
+    }
+
     let report = Report::new(
-        "stream 1: random lookahead-free modes (1-6 patterns as IR: literals in all escape styles, dot, classes, Perl classes, groups, alternation incl. empty branches, * + ? {m} {m,} {m,n}; token types by index or arbitrary u32 values) x inputs of 0-40 chars built from members/near-misses of the pattern languages plus noise, through build_uncached / build / add_patterns; stream 2: every IR term with <= k operators over {a,b} as single pattern x every string over {a,b,z} up to length L (exhaustive sub-space); thorough adds sampled term pairs. Oracle: denotational matcher + longest-match/first-pattern/skip rule. A case is non-trivial if tokens were produced and a tie-break, a later-pattern-wins-by-length or a skip event occurred (stream 1) / a token was produced (stream 2); distinct by hash of (configuration, input).",
+        "stream 4: the valid rows of the repository's tests/match_test.rs re-judged by the reference; stream 1: random lookahead-free modes (1-6 patterns as IR: literals in all escape styles, dot, classes, Perl classes, groups, alternation incl. empty branches, * + ? {m} {m,} {m,n}; token types by index or arbitrary u32 values) x inputs of 0-40 chars built from members/near-misses of the pattern languages plus noise, through build_uncached / build / add_patterns; stream 2: every IR term with <= k operators over {a,b} as single pattern x every string over {a,b,z} up to length L (exhaustive sub-space); thorough adds sampled term pairs. Oracle: denotational matcher + longest-match/first-pattern/skip rule. A case is non-trivial if tokens were produced and a tie-break, a later-pattern-wins-by-length or a skip event occurred (stream 1) / a token was produced (stream 2); distinct by hash of (configuration, input).",
     )
     .floor("tie_break", 1000)
     .floor("later_wins_by_length", 1000)
@@ -311,6 +336,7 @@ pub fn c01(tier: Tier) -> i32 {
     .floor("nullable_pattern", 200)
     .floor("built_via_add_patterns", 200)
     .floor("systematic_scans", 100_000)
+    .floor("repository_rows_checked", 100)
     .assume("regex-syntax 0.8 is only used as a guard (printed IR must parse back to the same structure, otherwise the case is skipped and counted)")
     .assume("non-ASCII membership of \\d \\s \\w is calibrated on the scanner built from that item alone (C08 covers the items themselves)")
     .extra("systematic_terms", json!(sys_terms))
